@@ -79,7 +79,7 @@ int main(int argc, char **argv) {
               "distinct = digest of the whole case";
     HistWeights w;
     w.discover = 10; w.hello = 4; w.reset = 3;
-    bool ok = run_cases(a, ev, "c03-histories", a.n(6000, 300000), 100, hg::hist_case(w, 1, 40), run);
+    bool ok = run_cases(a, ev, "c03-histories", a.n(40000, 600000), 100, hg::hist_case(w, 1, 40), run);
     ev.write(a.out);
     return ok ? 0 : 1;
 }
